@@ -12,6 +12,9 @@
 //!   digest covget <fmt> <items> <g>          `Coverage::get` on the same table -> coverage index | -
 //!   digest lookups <fontid> gsub|gpos <num_glyphs>   for every lookup of the table, as parsed by the crate:
 //!        ok <n> m0:m1:m2:<g,g,…|-> …   (lookup digest; glyphs below num_glyphs that some subtable's coverage reports)
+//!   digest lookupdigest <fontid> gsub|gpos <lookup index> COVS <fmt> <items> <fmt> <items> …
+//!        the digest `SubstLookup::parse` / `PositioningLookup::parse` built for that lookup -> m0 m1 m2
+//!        (COVS …, the coverage table of every subtable as written in the font, is for the Lean model)
 use super::util::u64s;
 use rustybuzz::verif::digest as d;
 use rustybuzz::verif::layout_common as lc;
@@ -55,6 +58,19 @@ pub fn handle(toks: &[&str], _st: &mut crate::State) -> Option<String> {
                 Some(i) => format!("{}", i),
                 None => "-".into(),
             })
+        }
+        "lookupdigest" => {
+            let data: &'static [u8] = _st.fonts.get(*toks.get(1)?)?;
+            let face = rustybuzz::Face::from_slice(data, 0)?;
+            let gpos = match *toks.get(2)? {
+                "gsub" => false,
+                "gpos" => true,
+                _ => return None,
+            };
+            let li: usize = toks.get(3)?.parse().ok()?;
+            let ds = lc::lookup_digests(&face, gpos);
+            let m = ds.get(li)?;
+            Some(format!("{} {} {}", m[0], m[1], m[2]))
         }
         "lookups" => {
             let data: &'static [u8] = _st.fonts.get(*toks.get(1)?)?;
